@@ -126,6 +126,8 @@ func (ex *Exec) verifyFunction(fn *ssa.Function, con *Contract) (rep *FuncReport
 	}()
 	con.Used = true
 	ex.facts = nil
+	ex.factBlk = nil
+	ex.curBlk = nil
 	ex.inputs = nil
 	ex.pureSeen = map[string]bool{}
 	st := &State{reach: True(), cells: map[*ssa.Alloc]Val{}, heap: newHeap("")}
@@ -170,6 +172,7 @@ func (ex *Exec) verifyFunction(fn *ssa.Function, con *Contract) (rep *FuncReport
 			NFacts: len(ex.facts), Goal: False(), Backend: "smt", Text: "requires and type invariants are satisfiable (expected: sat)"})
 	}
 	res := ex.run(fr, st)
+	ex.curBlk = nil
 	if res.st == nil {
 		ex.note("%s: no reachable return", fr.label)
 		return rep
@@ -420,6 +423,8 @@ func (ex *Exec) verifyLemma(cl *Clause, pkgPath string) (rep *FuncReport) {
 	}()
 	ensureIntrinsics(pk.Types)
 	ex.facts = nil
+	ex.factBlk = nil
+	ex.curBlk = nil
 	ex.inputs = nil
 	ex.pureSeen = map[string]bool{}
 	st := &State{reach: True(), cells: map[*ssa.Alloc]Val{}, heap: newHeap("")}
@@ -428,4 +433,22 @@ func (ex *Exec) verifyLemma(cl *Clause, pkgPath string) (rep *FuncReport) {
 	fr := &Frame{ex: ex, label: label}
 	ex.oblige(fr, st, "lemma", cl.Label, g, token.NoPos, cl.Text)
 	return rep
+}
+
+
+// assumeGlobalInv re-assumes the invariants of a package-level variable at a load of it (the
+// variable is never assigned after initialisation: checked by the `global` obligation).
+func (ex *Exec) assumeGlobalInv(fr *Frame, st *State, g *ssa.Global) {
+	if g.Pkg == nil {
+		return
+	}
+	for _, gi := range ex.cs.Globals {
+		if gi.PkgPath != g.Pkg.Pkg.Path() || gi.Var != g.Name() {
+			continue
+		}
+		pk := ex.prog.Pkgs[gi.PkgPath]
+		top := fr.topFrame()
+		env := &SpecEnv{ex: ex, pkg: pk, pos: ex.funcScope(top.fn, top.con).pos, st: st, old: st, objs: map[types.Object]Val{}, entry: map[types.Object]Val{}, label: "global " + gi.Var}
+		ex.fact(st, env.evalBool(gi.Clause.Text))
+	}
 }
